@@ -875,6 +875,13 @@ func runC03(p *core.Prog, r *core.Report, tier string) {
 									continue
 								}
 								for _, o := range p.ParamOrigins(prm.Parent(), i, 0) {
+									// the context of the process itself (made in package main, cancelled at shutdown) is
+									// nobody's handler context
+									if oi, ok := o.(ssa.Instruction); ok && oi.Parent() != nil && oi.Parent().Pkg != nil {
+										if rel := core.RelPkg(oi.Parent().Pkg.Pkg.Path()); rel == "" || rel == "." {
+											continue
+										}
+									}
 									if b, w := owned(o, depth+1); b {
 										return true, w
 									}
